@@ -38,7 +38,7 @@ func retValueIs(p *Prog, r *Report, rule string, fn *ssa.Function, what, pattern
 		n++
 		t := s.Of(rps[i].Vals[0])
 		if !glob(pattern, t.String()) {
-			bad = append(bad, fmt.Sprintf("return at %s yields %s", p.Pos(rps[i].Ret.Pos()), clip(t.String(), 300)))
+			bad = append(bad, fmt.Sprintf("return at %s yields %s%s", p.Pos(rps[i].Ret.Pos()), clip(t.String(), 300), firstDiff(pattern, t.String())))
 		}
 	}
 	key := shortName(fn) + " returns " + what
@@ -261,7 +261,7 @@ func c02Body(p *Prog, r *Report, R1, R2, R3, R4, R5 string) {
 		suite := "param:0.nameKey.suite"
 		ks := "call<(github.com/cisco/go-hpke.AEADScheme).KeySize>(" + suite + ".AEAD)"
 		ns := "call<(github.com/cisco/go-hpke.AEADScheme).NonceSize>(" + suite + ".AEAD)"
-		n := "call<tokens/type3.max>(" + ks + ", " + ns + ")"
+		n := "call<builtin.max>(" + ks + ", " + ns + ")"
 		salt := "cat(param:0.encapEnc, slice(param:1, const:0, " + n + "))"
 		prk := "call<(github.com/cisco/go-hpke.KDFScheme).Extract>(" + suite + ".KDF, " + salt + ", param:0.encapSecret)"
 		key := "call<(github.com/cisco/go-hpke.KDFScheme).Expand>(" + suite + ".KDF, " + prk + ", load(global:github.com/cloudflare/pat-go/tokens/type3.labelResponseKey), " + ks + ")"
@@ -351,7 +351,7 @@ func c02Body(p *Prog, r *Report, R1, R2, R3, R4, R5 string) {
 				w := tokenInputTerm("5", "index(param:2, "+i+")", "param:1", "param:3")
 				v := s.Of(st.Val).String()
 				seen = append(seen, clip(v, 200))
-				if v == "make(len("+w+"), copy("+w+"))" {
+				if v == "make(len("+w+"), copy("+w+"))" || (v == w && wholeTail(p, st.Val, 0, map[ssa.Value]bool{})) {
 					found = true
 				}
 			}
